@@ -86,6 +86,14 @@ class Sub(Base):
     pass
 
 
+class Over(Base):
+    def meth(RECV, v):
+        # an overriding method that mentions super(): a closure (over __class__)
+        parent = super()
+        w = v + RECV.k + 500
+        return w
+
+
 class EqAll(Base):
     def __eq__(self, other):
         return True
@@ -152,10 +160,12 @@ def caller_with_clash(text, clash):
     return probe_here(text)
 '''
 
-CLASSES = ["Base", "Sub", "EqAll", "EqNoHash", "Falsy", "FalsyList"]
+CLASSES = ["Base", "Sub", "EqAll", "EqNoHash", "Falsy", "FalsyList", "Over"]
 
 
-def expected_w(kind, k, v):
+def expected_w(kind, k, v, cls=None):
+    if cls == "Over" and kind == "meth":
+        return v + k + 500
     return {"meth": v + k, "dmeth": v * 2 + k, "prop": k + 100, "dprop": k + 200}[kind]
 
 
@@ -196,6 +206,9 @@ def _check_one(recv, pop, calls, sel, rec=None, prelude=None):
         text = f"Base.{kind} > {focus}"
     elif path == "subclass":
         text = f"Sub.{kind} > {focus}"
+    elif path == "overclass":
+        text = f"Over.meth > {focus}"
+        env["Over"] = glb["Over"]
     elif path == "object":
         text = f"o{ti}.{kind} > {focus}"
     elif path == "dotted":
@@ -225,10 +238,14 @@ def _check_one(recv, pop, calls, sel, rec=None, prelude=None):
         if c[0] == "m":
             _, i, ck, v = c
             k = pop[i][1]
-            results_want.append(expected_w(ck, k, v))
-            if ck == kind and path != "nested" and not relay and path != "implicit-plain":
+            results_want.append(expected_w(ck, k, v, cls_of(i)))
+            # Over.meth is a function of its own: class selectors on Base/Sub do not name it,
+            # and the selector on Over.meth names nothing else
+            own_fn = cls_of(i) == "Over" and ck == "meth"
+            named = (path == "overclass") == own_fn if not by_object else True
+            if ck == kind and path != "nested" and not relay and path != "implicit-plain" and named:
                 if not by_object or i == ti:
-                    want.append((expected_w(ck, k, v) if focus == "w" else v, i))
+                    want.append((expected_w(ck, k, v, cls_of(i)) if focus == "w" else v, i))
         elif c[0] == "plain":
             results_want.append(c[1] - 1)
             if path == "implicit-plain":
@@ -247,18 +264,23 @@ def _check_one(recv, pop, calls, sel, rec=None, prelude=None):
                         want.append((ws[i] if focus == "w" else v + i, i))
         else:
             v = c[1]
-            results_want.append([v + k for _, k in pop])
+            results_want.append([expected_w("meth", k, v, c_) for c_, k in pop])
             if kind == "meth" and not relay and path != "implicit-plain":
-                for i, (_, k) in enumerate(pop):
+                for i, (c_, k) in enumerate(pop):
+                    wv = expected_w("meth", k, v, c_)
                     if path == "nested":
                         if i == ti:
-                            want.append((v + k if focus == "w" else v, i))
-                    elif not by_object or i == ti:
-                        want.append((v + k if focus == "w" else v, i))
+                            want.append((wv if focus == "w" else v, i))
+                    elif by_object:
+                        if i == ti:
+                            want.append((wv if focus == "w" else v, i))
+                    elif (path == "overclass") == (c_ == "Over"):
+                        want.append((wv if focus == "w" else v, i))
     # ---- ptera
     got = []
     results = []
     ctxt = f"receiver name {recv!r}, population {pop}, selector {text!r}, calls {calls}"
+    module_level = {n: glb[n] for n in ("meth", "sweep", "walk", "Base", "Over")}
     try:
         if path.startswith("implicit"):
             # no env: the names are looked up where the selector is written (a helper called
@@ -291,6 +313,11 @@ def _check_one(recv, pop, calls, sel, rec=None, prelude=None):
         if HY.global_state_problems():
             HY.force_global_clean()
         PR.forget(glb)
+    changed = [n for n, v in module_level.items() if glb.get(n) is not v]
+    if changed:
+        raise PropertyViolation(
+            "plain-function", f"probing the method changed the module-level names {changed} (now "
+                              f"{[glb.get(n) for n in changed]!r})\n{ctxt}", extra={"bucket": "module-names"})
     if results != results_want:
         raise PropertyViolation("results", f"return values {results}, expected {results_want}\n{ctxt}")
     got_vals = [d.get(focus) for d in got]
@@ -335,12 +362,12 @@ def strategy():
         n = draw(st.integers(2, 5))
         pop = [(draw(st.sampled_from(CLASSES + ["EqAll", "EqNoHash", "EqAll"])), draw(st.integers(0, 3))) for _ in range(n)]
         path = draw(st.sampled_from(["class", "subclass", "object", "object", "dotted", "nested", "relay", "relay-nested",
-                                     "relay-class", "implicit", "implicit-plain"]))
+                                     "relay-class", "implicit", "implicit-plain", "overclass"]))
         kind = draw(st.sampled_from(["meth", "meth", "dmeth", "prop", "dprop"]))
         ti = draw(st.integers(0, n - 1))
         if path in ("object", "dotted") and kind in ("prop", "dprop"):
             kind = "meth"  # obj.prop would evaluate the property
-        if path in ("nested", "implicit-plain") or path.startswith("relay"):
+        if path in ("nested", "implicit-plain", "overclass") or path.startswith("relay"):
             kind = "meth"
         if path == "implicit" and kind in ("prop", "dprop"):
             kind = "meth"
